@@ -133,10 +133,14 @@ namespace sim
 		const int packet_size = int(p.buffer.size() + p.overhead);
 		m_queue_size -= packet_size;
 
-		forward_packet(std::move(p));
-
+		// start sending the next packet before handing this one to the next
+		// hop: forwarding may synchronously make another packet arrive at
+		// this very queue (e.g. the ACK of a connection whose two directions
+		// share the queue), which would otherwise start the sender twice
 		if (m_queue.size())
 			begin_send_next_packet();
+
+		forward_packet(std::move(p));
 	}
 }
 
